@@ -43,13 +43,15 @@ PROPS = {
         pkg="c02", level="exploration",
         tests=[T("TestC02", Q(2500), Q(12000, timeout=900, shards=12, shrinktime="60s")),
                T("TestC02Atomic", Q(1500), Q(6000, timeout=900, shards=4, shrinktime="60s")),
-               T("TestC02AtomicBig", Q(16, timeout=300, shrinktime="20s"), Q(120, timeout=1200, shards=6, shrinktime="60s"))],
+               T("TestC02AtomicBig", Q(16, timeout=300, shrinktime="20s"), Q(120, timeout=1200, shards=6, shrinktime="60s")),
+               T("TestC02Table", Q(3000), Q(20000, timeout=900, shards=6, shrinktime="60s"))],
         rule="TestC02: rapid histories dominated by TXN commands (0-3 predicates EQUAL/GREATER/LESS/NOT_EQUAL/existence on single keys and ranges, 0-4 ops per branch mixing "
              "range reads, puts, (range) deletes on overlapping keys) placed anywhere in apply batches of 1-4 entries, plus read-only transactions through Lookup which are "
              "additionally compared with the same ops issued individually and with the same txn sent through the log (metamorphic). Non-trivial iff some txn had >=1 predicate and "
              ">=2 ops in the executed branch and touched a key written earlier in the same txn/batch. TestC02Atomic: stamp commands rewrite a key group together while 1-4 reader goroutines "
              "range-read the group; non-trivial iff readers observed >=2 distinct stamps. TestC02AtomicBig: the same with padded group values inside Update calls of > 16 MiB "
-             "(filler puts place the 16 MiB mark of pending writes inside the stamp command; trailing fillers keep the call running). Distinct = sha256 of the case JSON.",
+             "(filler puts place the 16 MiB mark of pending writes inside the stamp command; trailing fillers keep the call running). TestC02Table: transactions as a client issues them, through table.ActiveTable.Txn over an in-memory raft stand-in (read path vs log, command building, result decoding), "
+             "shapes the table layer could special-case over-represented (no predicates, puts only, single operation, prev_kv of a key written earlier in the same transaction, empty branches, read-only); non-trivial iff such a prev_kv occurred or both branches were taken. Distinct = sha256 of the case JSON.",
         assumptions=FSM_ASSUME + ["atomic-visibility readers run on real goroutines: the oracle is timing-free, only coverage depends on scheduling"],
         technique="stateful property-based testing against a transaction model + metamorphic relations + concurrent readers",
         level_text="Randomised exploration: transaction semantics compared with an independent evaluator on thousands of histories; read-only txn path cross-checked "
@@ -247,6 +249,7 @@ PROPS = {
     "C15": dict(
         pkg="c15", level="exploration",
         tests=[T("TestC15", Q(20000), Q(100000, timeout=900, shards=8)),
+               T("TestC15Replicas", Q(40000), Q(250000, timeout=900, shards=8)),
                T("TestC15Exhaustive", Q(0, timeout=300), Q(0, timeout=2400)),
                T("TestC15Cluster", Q(400, timeout=300, shrinktime="20s"), Q(4000, timeout=900, shards=4, shrinktime="60s")),
                T("TestC15Worker", Q(2, timeout=300, shards=2, shrinktime="10s"), Q(12, timeout=900, shards=8, shrinktime="30s"))],
